@@ -42,6 +42,12 @@ def families(tier, rng):
             for end in (["vanish", 1], ["vanish", 1, "reset"]):
                 for a in range(0, 6 if tier == "quick" else 12):
                     fam.append(("gonerace:%s" % pname, p + [["nq", ["send", 1, cmd]], ["iter", a], ["nq", end], ["tick", 0]]))
+    # 5. the session ends (or the server is closed) while a download / listing is stuck on a receiver that has stopped reading
+    for verb in ("RETR f", "LIST", "MLSD d", "RETR d/g"):
+        for hw in (1, 4):
+            for end in (["vanish", 1], ["vanish", 1, "reset"], ["srvclose"], ["send", 1, "QUIT"], ["sendraw", 1, list(b"\xff\r\n")]):
+                fam.append(("heldcut", [["connect", 1], ["send", 1, "USER u1"], ["send", 1, "PASS pw1"], ["send", 1, "PASV"], ["dconnect", 1], ["hold", 1, hw],
+                                        ["send", 1, verb], end, ["tick", 0]]))
     for end in (["vanish", 1], ["vanish", 1, "reset"]):
         for a in range(0, 6):
             fam.append(("early", [["nq", ["connect", 1]], ["iter", a], ["nq", end], ["tick", 0], ["connect", 1], ["send", 1, "USER u2"],
